@@ -44,6 +44,8 @@ type byzState struct {
 
 	// lock-attack
 	la lockAttack
+	// stale-polka
+	sp stalePolka
 }
 
 type lockAttack struct {
@@ -73,6 +75,7 @@ func newByzState(r *Router) *byzState {
 		la.forged = map[string]bool{}
 		la.phase = 1
 	}
+	b.initStalePolka()
 	return b
 }
 
@@ -185,6 +188,7 @@ func (b *byzState) filter(from *Inc, to int, pk *test.Packet, pm *parsed) bool {
 
 // onFinalized advances scripted strategies (called by the monitor, any goroutine).
 func (b *byzState) onFinalized(node int, h int64) {
+	b.spOnFinalized(node, h)
 	la := &b.la
 	if !la.active {
 		return
@@ -454,5 +458,8 @@ func (b *byzState) secondProposal(from *Inc, h int64, r int32, dests []int) {
 func (b *byzState) LockAttackState() (active, unfolded, aborted bool) {
 	b.mu.Lock()
 	defer b.mu.Unlock()
+	if b.sp.active {
+		return true, b.sp.unfolded, b.sp.aborted
+	}
 	return b.la.active, b.la.unfolded, b.la.aborted
 }
